@@ -224,7 +224,7 @@ def _history_vine(spec, ctx):
         return m
     ok, ms_ = ctx.call(lambda: (fitted([prev]), fitted([]), fitted([])))
     if not ok:
-        if isinstance(ms_, ValueError):
+        if vines.is_refusal(ms_):
             ctx.note('vine fit refused')
             return
         ctx.violation('history.refit-equals-fresh-fit', 'C19:refit-' + exc_mech(ms_), dict(exc_detail(ms_), **where))
@@ -252,7 +252,7 @@ def _poison(spec, ctx):
     for sent in ('pos', 'neg'):
         model, p = vines.fit(ctx, spec['vine_type'], df, spec['truncated'], sent, random_state=5)
         if p is None:
-            if isinstance(model, ValueError):
+            if vines.is_refusal(model):
                 ctx.note('vine fit refused')
                 return
             ctx.violation('poison.fit', 'C19:vine-fit-' + exc_mech(model), dict(exc_detail(model), **where))
